@@ -92,6 +92,8 @@ structure WSt where
   c09Goaway : Bool := false           -- a GOAWAY with an error code
   c09Rst : Bool := false              -- RST_STREAM for the stream concerned
   c09Pong : Bool := false             -- we answered the probe PING that followed the injection
+  -- C08: consecutive polls of the connection task that woke itself without doing anything
+  idleSelfWakes : Nat := 0
   deriving Repr
 
 def WSt.get (w : WSt) (id : Nat) : Option Str := w.strs.find? (·.id = id)
